@@ -422,7 +422,10 @@ Definition c05_intro (st : c05st) (now : Z) (p : ptok) (i : intro) : N :=
   else if in_refresh i then (if c05_revoked st (ptok_exact p) then 3 else 0)
   else if c05_dead st now (ptok_exact p) then 2 else 0.
 
-Fixpoint c05_from (cfg : config) (st : c05st) (k : nat) (now : Z) (ops : list op) (xs : list obs) : N :=
+(* codes: authorization code -> grant key of the grant its redemption created.  A later presentation of a
+   redeemed code by an authenticated client is answered invalid_grant and invalidates that grant (and the
+   tokens obtained from it, however often the grant was refreshed since). *)
+Fixpoint c05_from (cfg : config) (st : c05st) (codes : list (id * N)) (k : nat) (now : Z) (ops : list op) (xs : list obs) : N :=
   match ops, xs with
   | o :: ops', x :: xs' =>
       let key := N.of_nat (S k) in
@@ -449,6 +452,10 @@ Fixpoint c05_from (cfg : config) (st : c05st) (k : nat) (now : Z) (ops : list op
                         (match lookupN gk (m_cur st) with Some (old, _) => old :: m_deadt st | None => m_deadt st end)
               | None => c05_new cfg st key now (tr_at t) (tr_rt t)
               end
+          | OpToken GAuthorizationCode r, Out (OErr EInvalidGrant) =>
+              match lookup (t_code r) codes with
+              | Some gk => mkC05 (m_gmap st) (m_cur st) (gk :: m_deadk st) (m_deadt st)
+              | None => st end
           | OpToken _ r, Out (OTokens t) => c05_new cfg st key now (tr_at t) (tr_rt t)
           | OpAuthorize _, Out (ONav _ _ nv) | OpCallback _, Out (ONav _ _ nv) => c05_new cfg st key now (n_at nv) 0
           | OpNotifyOk _ _, Notified true (nf :: _) => c05_new cfg st key now (nf_at nf) (nf_rt nf)
@@ -466,12 +473,15 @@ Fixpoint c05_from (cfg : config) (st : c05st) (k : nat) (now : Z) (ops : list op
               | _ => st end
           | _, _ => st
           end in
-        c05_from cfg st' (S k) (match o with OpTick d => (now + d)%Z | _ => now end) ops' xs'
+        let codes' := match o, x with
+                      | OpToken GAuthorizationCode r, Out (OTokens t) => if is_nil (tr_at t) then codes else (t_code r, key) :: codes
+                      | _, _ => codes end in
+        c05_from cfg st' codes' (S k) (match o with OpTick d => (now + d)%Z | _ => now end) ops' xs'
       | c => viol c k
       end
   | _, _ => 0
   end.
-Definition mon_C05 := with_cfg (fun cfg ops xs => c05_from cfg (mkC05 [] [] [] []) 0 0%Z ops xs).
+Definition mon_C05 := with_cfg (fun cfg ops xs => c05_from cfg (mkC05 [] [] [] []) [] 0 0%Z ops xs).
 
 (* C10, clauses 4 and 6: the absolute expiry of a grant, as introspection of its refresh token reports
    it, never moves - across refreshes and rotations; no refresh succeeds after the lifetime fixed when
